@@ -56,7 +56,7 @@ def cases(draw):
         "temperature": draw(st.sampled_from([0.0, 0.01, 0.5, 2.0])),
         "seed": draw(st.integers(0, 999)),
         "max_repeats": draw(st.integers(1, 8)),
-        "via": draw(st.sampled_from(["finder", "finder", "slice", "reslice", "finder_reuse", "finder_override", "finder_info"])),
+        "via": draw(st.sampled_from(["finder", "finder", "slice", "reslice", "finder_reuse", "finder_override", "finder_info", "slice_reconf"])),
         # after the search also ask the finder for its k best candidates
         "best_k": draw(st.sampled_from([0, 0, 1, 2, 3, 5])),
         # size_dict carries an entry for a label the network does not use
@@ -283,6 +283,22 @@ def run_case(spec, sub=None):
         new_labels = ix_sl
         prior_nslices = old_mult
         base_total = tree.total_flops()
+    elif spec["via"] == "slice_reconf":
+        # the slice search driven in steps by slice_and_reconfigure (slicing
+        # interleaved with subtree reconfiguration): the size target it is given
+        # holds on the tree it returns
+        tsz = kw.get("target_size", max(1, base_size // 4))
+        kw = {"target_size": tsz}
+        ok, new_tree = guarded(
+            tree.slice_and_reconfigure, tsz, step_size=2 + spec["seed"] % 2, temperature=spec["temperature"],
+            minimize=spec["minimize"], allow_outer=spec["allow_outer"], max_repeats=spec["max_repeats"],
+            reconf_opts={"subtree_size": 4, "maxiter": 3, "seed": spec["seed"]},
+        )
+        if not ok:
+            return no_answer(new_tree)
+        new_labels = sorted(ix for ix in new_tree.sliced_inds if ix not in dict(old_sliced))
+        base_total = tree.total_flops()
+        prior_nslices = old_mult
     else:
         ok, new_tree = guarded(
             tree.slice, allow_outer=spec["allow_outer"], minimize=spec["minimize"],
